@@ -134,6 +134,9 @@ def plan_seq(pid, tier, seed, ncpu):
         if pid == "C04":
             # size-aware caches with hundreds of entries: one update that needs more than one eviction batch
             js += seq_jobs(bindirs["dbg"], workdir, known, pid, "bulk", scale(tier, 240, 6000), 1300, seed, 3, prefix="bulk")
+        if pid in ("C07", "C01"):
+            # invalidate_all over more admitted entries than one maintenance run purges
+            js += seq_jobs(bindirs["dbg"], workdir, known, pid, "bulk", scale(tier, 180, 4500), 1300, seed, 3, prefix="bulk")
         if pid in ("C05", "C06"):
             # more expired entries pending than one maintenance batch (100 / 500) purges
             js += seq_jobs(bindirs["dbg"], workdir, known, pid, "bulk", scale(tier, 240, 6000), 1300, seed, 4, prefix="bulk")
